@@ -5,10 +5,12 @@
 import ALV.Lemmas.C09
 import ALV.Lemmas.C09Gain
 import ALV.Lemmas.C09Order
+import ALV.Lemmas.C09Inverse
+import Mathlib.Algebra.Order.Field.Rat
 import ALV.Common.Audit
 
 namespace ALV.Props.C09
-open ALV.C09
+open ALV.C09 ALV.C08
 
 section core
 variable {K : Type} [Semiring K]
@@ -191,6 +193,57 @@ theorem gainSpec_eq (size hop : Nat) (w : List K) :
   simp [gainSpec]
 
 end ordered
+
+section inverse
+variable {K : Type} [Field K] [LT K] [DecidableLT K] [DecidableEq K]
+
+/-- **C09.3** overlap-add inverts blocking: block a signal with the C08 `blocks` (size, hop,
+zero padding), overlap-add the blocks with a window whose hop-shifted copies, times the gain, sum
+to one (`hop ∣ size`): every output sample covered by `size/hop` blocks
+(`size - hop ≤ n < m*hop`, m = number of blocks) is the input sample. -/
+theorem ola_blocks_inverse (size hop : Nat) (hs : 0 < size) (h0 : 0 < hop) (hd : hop ∣ size)
+    (x : List K) (wnd : WndArg K) (w? : Option (List K)) (hres : resolveWnd size wnd = .ok w?)
+    (hw : ∀ w, w? = some w → w.length = size) (normalize : Bool)
+    (cola : ∀ j, j < hop → sumTo (size / hop) (fun i =>
+        gainSpec size hop normalize w? * (wndSpec size w?).getD (j + i * hop) 0) = 1)
+    (n : Nat) (hn1 : size - hop ≤ n) (hn2 : n < (blocks size hop 0 x).length * hop) :
+    (overlapAddList (blocks size hop 0 x) (some size) (some hop) wnd normalize).out.getD n 0
+      = x.getD n 0 := by
+  have hh : hop ≤ size := Nat.le_of_dvd hs hd
+  rw [ALV.Props.C08.blocks_eq_spec size hop hs h0] at hn2 ⊢
+  have hrow := blocksSpec_row_length size hop hs h0 (0 : K) x
+  have hget := blocksSpec_getD size hop h0 (0 : K) x
+  generalize blocksSpec size hop (0 : K) x = Bs at hn2 hrow hget
+  have h := ola_eq_spec size hop hs h0 hh Bs hrow (some size) (some hop) rfl rfl wnd w? hres hw normalize
+  rw [h.1]
+  unfold olaSpec
+  rw [getD_range_map _ _ _ (by omega)]
+  apply olaAt_inverse size hop h0 hd _ _ (fun _ => 1) x Bs
+  · intro k hk i hi
+    rw [hget k hk i hi, one_mul]
+  · intro j hj
+    simpa using cola j hj
+  · exact hn1
+  · exact hn2
+
+end inverse
+
+/-- non-vacuity of the COLA hypothesis: without and with normalisation -/
+example : ∀ j, j < 2 → sumTo (4 / 2) (fun i =>
+    gainSpec 4 2 false (some [0, 1, 1, (0 : ℚ)]) * (wndSpec 4 (some [0, 1, 1, (0 : ℚ)])).getD (j + i * 2) 0) = 1 := by
+  intro j hj
+  have : j = 0 ∨ j = 1 := by omega
+  rcases this with rfl | rfl <;> simp [sumTo, gainSpec, wndSpec]
+
+example : ∀ j, j < 2 → sumTo (4 / 2) (fun i =>
+    gainSpec 4 2 true (some [1, 3, 3, (1 : ℚ)]) * (wndSpec 4 (some [1, 3, 3, (1 : ℚ)])).getD (j + i * 2) 0) = 1 := by
+  intro j hj
+  have : j = 0 ∨ j = 1 := by omega
+  have a1 : ¬ ((1 : ℚ) < 0) := by norm_num
+  have a3 : ¬ ((3 : ℚ) < 0) := by norm_num
+  have a4 : ¬ ((1 : ℚ) + 3 < 3 + 1) := by norm_num
+  rcases this with rfl | rfl <;>
+    simp [sumTo, gainSpec, wndSpec, maxStrided, maxTo, stridedAbsSum, absS, a1, a3, a4] <;> norm_num
 
 /-- non-vacuity: two blocks of 3 with hop 2 and a non-trivial window -/
 example : (olaCore 3 2 (some [1, 2, 3]) [[1, 10, 100], [1000, 10000, 100000]] : Out Int).out
